@@ -73,6 +73,17 @@ func projectLines(text string) []fLine {
 
 func concretiseLines(ls []fLine) string { return concretiseLinesInd(ls, false) }
 
+// trailing: marker lines end with a blank after their last filter (layout again)
+func concretiseLinesTrail(ls []fLine) string {
+	lines := strings.Split(concretiseLinesInd(ls, false), "\n")
+	for i, l := range lines {
+		if strings.Contains(l, "#aa:") {
+			lines[i] = l + " "
+		}
+	}
+	return strings.Join(lines, "\n")
+}
+
 // odd: marker lines are indented by an odd number of blanks (same abstract file: indentation is layout)
 func concretiseLinesInd(ls []fLine, odd bool) string {
 	var b strings.Builder
@@ -216,15 +227,19 @@ func checkC03(e *Env, r *Report) {
 			if fi >= len(files)-nRand && (fi+len(c.Dist)+c.ABI)%3 != 0 {
 				continue // random files: a third of the configurations each
 			}
-			for variant := 0; variant < 2; variant++ {
+			for variant := 0; variant < 3; variant++ {
 				vtext := text
-				if variant == 1 {
+				if variant >= 1 {
 					if fi >= len(files)-nRand {
-						break // odd indentation: for the enumerated files
+						break // odd indentation / trailing blank: for the enumerated files
 					}
-					vtext = concretiseLinesInd(f, true)
+					if variant == 1 {
+						vtext = concretiseLinesInd(f, true)
+					} else {
+						vtext = concretiseLinesTrail(f)
+					}
 					if vtext == text {
-						break
+						continue
 					}
 				}
 				out, err := runDirectives(c, vtext)
@@ -256,6 +271,8 @@ func checkC03(e *Env, r *Report) {
 				vid := ""
 				if variant == 1 {
 					vid = "odd-indent|"
+				} else if variant == 2 {
+					vid = "trailing-blank|"
 				}
 				recs = append(recs, map[string]any{"ev": "file", "id": fmt.Sprintf("gen|%s%s|%s", vid, compactLines(f), c.Key()), "cfg": c, "src": src, "out": outL})
 			}
